@@ -180,6 +180,25 @@ def gen_entry(r, rng, dom, pspace, prows, p_density=0.2):
 def gen_case(prop, seed, p_fault=0.6):
     r = rnd(seed, "gen")
     rng = np.random.default_rng(H(seed, "ref") % (2 ** 32))
+    if prop == "C06" and rnd(seed, "single-side").random() < 0.04:
+        # one end of an interval (boundary_left / boundary_right), possibly after a partial evaluation that fixes the
+        # variable the OTHER end depends on (the end itself is constant: F25 covers the remaining case)
+        rq = rnd(seed, "single-side-shape")
+        a0 = GG.q(rq.uniform(-3, 1))
+        b0 = GG.q(a0 + rq.uniform(0.5, 3))
+        side = rq.choice(("bleft", "bright"))
+        tv = GG.q(rq.uniform(0, 1))
+        if side == "bright":
+            build = {"k": "iv", "var": "x", "a": ["aff", a0, GG.q(-rq.uniform(0.2, 1.0)), "t"], "b": b0}
+        else:
+            build = {"k": "iv", "var": "x", "a": a0, "b": ["aff", b0, GG.q(rq.uniform(0.2, 1.0)), "t"]}
+        case = {"format": 1, "property": prop, "engine": "geosim", "seed": seed, "rng": H(seed, "rng"),
+                "dom": {"k": side, "d": G.subst(build, {"t": tv})}, "pspace": [], "prows": [],
+                "entry": {"kind": "domain", "method": rq.choice(("random", "grid")), "n": rq.choice((1, 2, 5))}, "fault": None}
+        if rq.random() < 0.7:
+            case["dom_build"] = {"k": side, "d": build}
+            case["pe_vals"] = {"t": tv}
+        return case
     if prop == "C06":
         # boundaries of primitives and of Boolean combinations of primitives, all vertex orders
         dom, pspace = gen_domain(r, rng, want_boundary=True, allow_tf=False, allow_prod=False)
@@ -209,6 +228,28 @@ def gen_case(prop, seed, p_fault=0.6):
         pspace, prows = [], []
         entry = {"kind": "sampler", "cls": "LHS", "n": r.choice((1, 2, 5, 20, 100))}
         fault = None
+    elif prop in ("C01", "C02") and rnd(seed, "lhs-boolean").random() < 0.04:
+        # Latin-hypercube sampling of a Boolean combination whose first operand fills its bounding box (interval or
+        # axis-parallel rectangle): the library's volume() of such combinations is an estimate that can equal the box
+        rb = rnd(seed, "lhs-boolean-shape")
+        if rb.random() < 0.3:
+            a0 = GG.q(rb.uniform(-3, 0))
+            A = {"k": "iv", "var": "x", "a": a0, "b": GG.q(a0 + rb.uniform(2, 4))}
+            Bn = {"k": "iv", "var": "x", "a": GG.q(a0 + rb.uniform(0.5, 1.0)), "b": GG.q(a0 + rb.uniform(1.2, 1.8))}
+        else:
+            ox, oy, w, h = GG.q(rb.uniform(-2, 1)), GG.q(rb.uniform(-2, 1)), GG.q(rb.uniform(1.5, 3)), GG.q(rb.uniform(1.5, 3))
+            A = {"k": "par", "var": "x", "o": [ox, oy], "c1": [ox + w, oy], "c2": [ox, oy + h]}
+            if rb.random() < 0.6:
+                Bn = {"k": "circ", "var": "x", "c": [GG.q(ox + w * rb.uniform(0.2, 0.8)), GG.q(oy + h * rb.uniform(0.2, 0.8))],
+                      "r": GG.q(min(w, h) * rb.uniform(0.2, 0.45))}
+            else:
+                Bn = {"k": "par", "var": "x", "o": [GG.q(ox + w / 2), GG.q(oy + h / 2)], "c1": [GG.q(ox + 1.5 * w), GG.q(oy + h / 2)],
+                      "c2": [GG.q(ox + w / 2), GG.q(oy + 1.5 * h)]}
+        op = rb.choice(("cut", "cut", "inter", "union"))
+        dom = {"k": op, "a": A, "b": Bn}
+        pspace, prows = [], []
+        entry = {"kind": "sampler", "cls": "LHS", "n": rb.choice((5, 20, 60, 200))}
+        fault = gen_fault(r, seed, 0.3)
     elif prop == "C10":
         dom, pspace = gen_domain(r, rng, max_depth=2)
         pspace, prows = gen_prows(r, pspace, allow_unused=False)
